@@ -3,15 +3,16 @@ import DracoModel.Varint
 import DracoModel.Wrap
 import DracoModel.Octahedron
 import DracoModel.Quantizer
+import DracoModel.Metadata
+import DracoModel.SymbolCoding
 /-
   Interface to the leaf models (entropy coder, transforms, float quantizers, metadata).
-  TEMPORARY stubs until the leaf model files are merged; every function here is replaced by a
-  one-line call into the leaf model.
+  Every function here is a one-line call into the leaf model.
 -/
 namespace Draco.Leaf
 
 /-- DecodeSymbols(num_values, num_components, buffer, out) -/
-def decodeSymbols (_numValues _numComponents : Nat) : Rd (List Nat) := fun _ => none
+def decodeSymbols (numValues numComponents : Nat) : Rd (List Nat) := Draco.decodeSymbols numValues numComponents
 
 abbrev WrapT := Draco.WrapT
 /-- `DecodeTransformData` of the wrap transform after reading (min,max) -/
@@ -34,7 +35,7 @@ def octaToUnit (q : Nat) (s t : Int) : Nat × Nat × Nat :=
     let (x, y, z) := Octa.coordsToUnitVector o (s, t)
     (x.toBits.toNat, y.toBits.toNat, z.toBits.toNat)
 
-/-- DecodeGeometryMetadata: canonical dump of the decoded metadata -/
-def decodeGeometryMetadata : Rd String := fun _ => none
+/-- `MetadataDecoder::DecodeGeometryMetadata` (current code: empty values accepted) -/
+def decodeGeometryMetadata : Rd GeometryMetadata := decodeGeometryMetadataFixed
 
 end Draco.Leaf
